@@ -69,6 +69,9 @@ type drv struct {
 	opCount      map[string]int
 	afterFault   int
 	failedWrites int
+	curCall      string
+	curBg        string // a table compaction below level 0 is running (fault positions inside it are of interest)
+	hot          map[string][]string
 	postHeal     bool
 	lastKeys     []int
 	summary      func() map[string]interface{}
@@ -120,6 +123,7 @@ func parseFault(s string) *faultPlan {
 
 func (d *drv) hookFaults() {
 	d.opCount = map[string]int{}
+	d.hot = map[string][]string{}
 	d.stor.Fault = func(op *vt.Op) (error, int) {
 		d.fmu.Lock()
 		defer d.fmu.Unlock()
@@ -128,6 +132,14 @@ func (d *drv) hookFaults() {
 			ft = storage.TypeManifest
 		}
 		d.opCount[op.Kind.String()+":"+vt.FtName(ft)]++
+		if bg := d.curBg; bg != "" && ft == storage.TypeTable && (op.Kind.Mutating() || op.Kind == vt.OpRead) && len(d.hot[bg]) < 120 {
+			d.hot[bg] = append(d.hot[bg], fmt.Sprintf("%s:%s:%d", op.Kind, vt.FtName(ft), d.opCount[op.Kind.String()+":"+vt.FtName(ft)]))
+		}
+		if cc := d.curCall; cc != "" && op.Kind.Mutating() || cc != "" && (op.Kind == vt.OpOpen || op.Kind == vt.OpRead) {
+			if len(d.hot[cc]) < 60 {
+				d.hot[cc] = append(d.hot[cc], fmt.Sprintf("%s:%s:%d", op.Kind, vt.FtName(ft), d.opCount[op.Kind.String()+":"+vt.FtName(ft)]))
+			}
+		}
 		p := d.plan
 		if p == nil || d.healed || op.Kind != p.kind || ft != p.ft {
 			return nil, -1
@@ -154,6 +166,27 @@ func (d *drv) opCountCopy() map[string]int {
 		m[k] = v
 	}
 	return m
+}
+
+func (d *drv) hotCopy() map[string][]string {
+	d.fmu.Lock()
+	defer d.fmu.Unlock()
+	m := map[string][]string{}
+	for k, v := range d.hot {
+		m[k] = append([]string(nil), v...)
+	}
+	return m
+}
+
+func (d *drv) in(call string) func() {
+	d.fmu.Lock()
+	d.curCall = call
+	d.fmu.Unlock()
+	return func() {
+		d.fmu.Lock()
+		d.curCall = ""
+		d.fmu.Unlock()
+	}
 }
 
 func (d *drv) heal(why string) {
@@ -453,7 +486,12 @@ func (d *drv) doBatch() {
 	b := new(leveldb.Batch)
 	d.fillBatch(b, ops)
 	dump := append([]byte(nil), b.Dump()...)
+	done := func() {}
+	if big {
+		done = d.in("bigwrite")
+	}
 	err := d.db.Write(b, d.wo())
+	done()
 	d.noteWrite(ops, err)
 	d.emit(vt.Ev{"ev": "write", "ops": opsJSON(ops), "err": d.ename(err), "api": "write", "big": b2i(big)})
 	if d.poison {
@@ -749,7 +787,9 @@ func (d *drv) walk(h int, it iterator.Iterator, n int) {
 // ---- transactions ----
 
 func (d *drv) doTxOpen() {
+	done := d.in("txopen")
 	tx, err := d.db.OpenTransaction()
+	done()
 	d.emit(vt.Ev{"ev": "txopen", "err": d.ename(err)})
 	if err == nil {
 		d.tx = tx
@@ -761,6 +801,7 @@ func (d *drv) doTxWrite() {
 	big := d.rng.Intn(6) == 0
 	ops := d.genOps(n, big)
 	var err error
+	defer d.in("txwrite")()
 	switch d.rng.Intn(3) {
 	case 0:
 		b := new(leveldb.Batch)
@@ -830,7 +871,9 @@ func (d *drv) doTxRead(k int) {
 func (d *drv) doTxEnd(commit bool) {
 	tx := d.tx
 	if commit {
+		done := d.in("txcommit")
 		err := tx.Commit()
+		done()
 		d.emit(vt.Ev{"ev": "txcommit", "err": d.ename(err)})
 		if err != nil {
 			tx.Discard()
@@ -1519,6 +1562,25 @@ func (d *drv) step() {
 			if h, it := d.anyIter(); it != nil {
 				d.doIterRel(h, it)
 			}
+		case r < 590:
+			// transaction iterators: overlay in the transaction's buffer and in its spilled tables, with ranges
+			d.doTxOpen()
+			if d.tx != nil {
+				for i := 0; i < 2+d.rng.Intn(5) && d.tx != nil; i++ {
+					d.doTxWrite()
+				}
+				for j := 0; j < 2 && d.tx != nil; j++ {
+					before := d.nextH
+					d.doIterNew("tx")
+					if it, ok := d.its[d.nextH]; ok && d.nextH != before {
+						d.walk(d.nextH, it, 4+d.rng.Intn(10))
+						d.doIterRel(d.nextH, it)
+					}
+				}
+				if d.tx != nil {
+					d.doTxEnd(d.rng.Intn(2) == 0)
+				}
+			}
 		default:
 			if h, it := d.anyIter(); it != nil {
 				d.walk(h, it, 3+d.rng.Intn(12))
@@ -1665,7 +1727,7 @@ func main() {
 	d.summary = func() map[string]interface{} {
 		return map[string]interface{}{"mode": *mode, "seed": *seed, "events": tr.N(), "row": row.Desc,
 			"stats": d.stats, "comp": d.comp, "wall_s": time.Since(start).Seconds(), "nkeys": d.u.N(),
-			"opcount": d.opCountCopy(), "injected": d.injected, "fault": *fault, "installs": d.installs}
+			"opcount": d.opCountCopy(), "hot": d.hotCopy(), "injected": d.injected, "fault": *fault, "installs": d.installs}
 	}
 	go d.watchdog(time.Duration(*hang)*time.Second, d.summary)
 	if *mode == "c18" {
@@ -1674,6 +1736,20 @@ func main() {
 	if *mode == "c08" {
 		d.plan = parseFault(*fault)
 		d.hookFaults()
+		leveldb.VerifSetHooks(&leveldb.VerifHooks{
+			Compaction: func(c *leveldb.VerifCompactionInfo) {
+				if c.SourceLevel >= 1 && !c.Trivial {
+					d.fmu.Lock()
+					d.curBg = "deepcompaction"
+					d.fmu.Unlock()
+				}
+			},
+			Install: func(*leveldb.VerifInstall) {
+				d.fmu.Lock()
+				d.curBg = ""
+				d.fmu.Unlock()
+			},
+		})
 	}
 	if *mode == "c06" {
 		d.hookEngine()
